@@ -48,8 +48,9 @@ func runC09(c *an.Ctx) {
 	c.Min("R09.4", 3)
 }
 
-func r091(c *an.Ctx) {
-	const rule = "R09.1"
+func r091(c *an.Ctx) { r091as(c, "R09.1") }
+
+func r091as(c *an.Ctx, rule string) {
 	fn := mustFunc(c, rule, resPkg, "", "mergeChanges")
 	if fn == nil {
 		return
